@@ -1,12 +1,14 @@
 """C15 - Admin publish is validated and all-or-nothing."""
 import json
 import os
+import random
 import re
 
 import vf
 from checks import apifam as fam
 
-RULE = ("MC: AdminPublish.tla, every batch of 1..MaxLen abstract items (MaxLen 3 quick / 4 thorough) in every frame (policy x path x "
+RULE = ("(plus seeded random requests of 1..40 items with padding, judged by the same trace specification) "
+        "MC: AdminPublish.tla, every batch of 1..MaxLen abstract items (MaxLen 3 quick / 4 thorough) in every frame (policy x path x "
         "scope x request-level class x padding x queue situation) as a state, all-or-nothing invariants; GEN: TLC prints the "
         "configuration tables and the selected batches (all pairs of kinds, every kind at every position, 1000 / 1001 items, "
         "near-full queues); every row executed through the production admin handlers (app.VerifBoot) on the memory and the "
@@ -84,6 +86,36 @@ def triage(ctx, results, table, seed, max_report=10):
             raise vf.Infra("; ".join(flaky[:3]))
 
 
+def random_rows(seed, table, n):
+    """Seeded random requests beyond the TLC-enumerated bound: 1..40 items (plus random padding), up to three offending kinds at
+    random positions, random policy / path / request class / queue situation.  Inputs only; AdminPublishTrace judges them."""
+    rng = random.Random(seed * 7919 + 15)
+    pols = sorted(table["policies"])
+    reqs = sorted(table["reqs"])
+    out = []
+    for _ in range(n):
+        path, scope = rng.choice([("global", "-"), ("scoped", "app1/ep1"), ("scoped", "app1/ep2")])
+        kinds = sorted(table["gkinds"] if path == "global" else table["skinds"])
+        fl = "ok_t" if scope == "app1/ep2" else "ok"
+        fr = {"pol": rng.choice(pols) if rng.random() < 0.4 else "P0", "path": path, "scope": scope,
+              "req": rng.choice(reqs) if rng.random() < 0.1 else "ok", "pad": 0, "tail": 0, "lim": "none", "q": "base", "sel": "rand", "maxlen": 40}
+        r = rng.random()
+        if r < 0.15:
+            fr["pad"], fr["tail"] = rng.randint(0, 60), rng.randint(0, 60)
+        elif r < 0.2:
+            fr["pad"], fr["tail"] = rng.randint(0, 300), rng.randint(0, 300)
+        length = rng.choice([1, 2, 3, 5, 8, 13, 21, 40]) if rng.random() < 0.5 else rng.randint(1, 40)
+        if rng.random() < 0.12:
+            fr["lim"], fr["q"] = rng.choice(["reject", "drop_oldest"]), rng.choice(["near_full", "near_full_leased"])
+            fr["pad"] = fr["tail"] = 0
+            length = rng.randint(1, 5)
+        items = [fl] * length
+        for pos in rng.sample(range(length), min(length, rng.choice([0, 1, 1, 1, 2, 2, 3]))):
+            items[pos] = rng.choice(kinds)
+        out.append({"fr": fr, "items": items})
+    return out
+
+
 def run(ctx):
     vf.build_tool(TOOL)
     maxlen = 3 if ctx.quick else 4
@@ -98,9 +130,12 @@ def run(ctx):
     table_file = os.path.join(ctx.scratch, "table.json")
     json.dump(table, open(table_file, "w"))
     rows_file = os.path.join(ctx.scratch, "rows.ndjson")
-    fam.write_rows(rows_file, rows)
     ctx.count("gen_rows", len(rows))
-    for s in ("full", "light", "req", "pad", "queue"):
+    rnd = random_rows(ctx.seed, table, 400 if ctx.quick else 6000)
+    ctx.count("random_rows", len(rnd))
+    rows = rows + rnd
+    fam.write_rows(rows_file, rows)
+    for s in ("full", "light", "req", "pad", "queue", "rand"):
         ctx.count("gen_rows_" + s, sum(1 for x in rows if x["fr"]["sel"] == s))
     shards = 16 if ctx.quick else 48
     out = os.path.join(ctx.shm, "trace-pub")
@@ -158,6 +193,9 @@ def run(ctx):
         missing.append("queue_full refusal")
     if c.get("pad.1000.accepted", 0) == 0 or c.get("pad.1001.refused", 0) == 0 or c.get("pad.1000.refused", 0) == 0:
         missing.append("1000 / 1001 item batches")
+    for acc in ("accepted", "refused"):
+        if c.get("sel.rand." + acc, 0) == 0:
+            missing.append("random requests " + acc)
     if c.get("indexed", 0) == 0:
         missing.append("no error named an item")
     if missing:
@@ -165,7 +203,7 @@ def run(ctx):
             raise vf.Infra("vacuous run, not exercised: " + "; ".join(missing[:20]))
         ctx.notes.append("not exercised (run has violations): " + "; ".join(missing[:20]))
     for k in ("backend.memory.accepted", "backend.memory.refused", "backend.sqlite.accepted", "backend.sqlite.refused", "indexed",
-              "code.queue_full", "evicted.memory", "evicted.sqlite", "pad.1000.accepted", "pad.1001.refused"):
+              "code.queue_full", "evicted.memory", "evicted.sqlite", "pad.1000.accepted", "pad.1001.refused", "sel.rand.accepted", "sel.rand.refused"):
         ctx.count(k, c.get(k, 0))
     ctx.assumptions += [
         "memory and SQLite backends (no PostgreSQL server in the sandbox); no dispatcher runs, so messages published to deliver routes stay queued",
